@@ -187,7 +187,15 @@ pub fn run(job: &Value) {
                 }
             }
             // the same parameters through other input representations: equal value, equal print, equal samples
-            for (name, alt) in s.alt_builds() {
+            let alts = match guarded(|| s.alt_builds()) {
+                Caught::Ok(v) => v,
+                Caught::Panic(m) => {
+                    rep.viol("alt_construction_panicked", json!({"msg": m}));
+                    vec![]
+                }
+                _ => vec![],
+            };
+            for (name, alt) in alts {
                 let mut ra = srng(mix(&[vseed, idx as u64, 0xA17]));
                 let mut rb = srng(mix(&[vseed, idx as u64, 0xA17]));
                 let ha = guarded(|| (0..64).map(|_| alt.call_hash(&mut ra)).collect::<Vec<u64>>());
